@@ -550,7 +550,7 @@ func c03run(c *Ctx) {
 					continue
 				}
 				cas := c03case{Root: h.Root, Ops: append(append([]int{}, h.Ops...), oi)}
-				v, k, tooLong := c03replay(ops, cas, false)
+				v, k, tooLong := c03replay(ops, cas, true)
 				c.Count("transitions", 1)
 				if v != nil {
 					c.Violate(v)
